@@ -21,7 +21,7 @@ RULE = ("random construction histories per context: symbols (several types, repe
         "shipped algorithms under the contract. distinct_nontrivial = distinct structural-key shapes (kind, operand kinds / value type+class) for which a "
         "repeated construction (same structural key seen before) was observed")
 ASSUME = ["CPython object identity; struct/ numpy byte views give exact bit patterns"]
-REQUIRE = ["evaluations", "contract:Context._register_expression:evaluated", "events:repeat", "events:new", "e2e:executed", "shipped:traced"]
+REQUIRE = ["evaluations", "contract:Context._register_expression:evaluated", "events:repeat", "events:new", "e2e:executed", "shipped:traced", "long-history:expressions"]
 
 
 def value_key(v):
@@ -36,8 +36,11 @@ def value_key(v):
     if isinstance(v, str):
         return ("str", v)
     if isinstance(v, numpy.generic):
-        if isinstance(v, (numpy.floating, numpy.complexfloating)) and numpy.isnan(v):
+        if isinstance(v, numpy.floating) and numpy.isnan(v):
             return (t.__name__, "nan")
+        if isinstance(v, numpy.complexfloating) and numpy.isnan(v):
+            # a NaN part is one value whatever its sign / payload; the other part keeps its exact bits
+            return (t.__name__, "nan", tuple("nan" if numpy.isnan(p_) else p_.tobytes() for p_ in (v.real, v.imag)))
         return (t.__name__, v.tobytes())
     if isinstance(v, int):
         return ("int", v)
@@ -47,7 +50,7 @@ def value_key(v):
         return ("float", struct.pack("<d", v))
     if isinstance(v, complex):
         if math.isnan(v.real) or math.isnan(v.imag):
-            return ("complex", "nan")
+            return ("complex", "nan", tuple("nan" if math.isnan(p_) else struct.pack("<d", p_) for p_ in (v.real, v.imag)))
         return ("complex", struct.pack("<dd", v.real, v.imag))
     return (t.__name__, repr(v))
 
@@ -114,7 +117,7 @@ def install(rec, model):
         model.keep.append(expr)
         tbl = model.table(ctx)
         isnan = expr.kind == "constant" and ke[1][1] == "nan"
-        if kp != ke and not (isnan and kp[0] == "constant" and kp[1] == ke[1] and kp[2] == ke[2]):
+        if kp != ke and not (isnan and kp[0] == "constant" and kp[1] == ke[1] and kp[2] == ke[2]):  # kp[1] is the whole value key: type, NaN-ness and, for complex, the bits of the other part
             # a different expression was silently substituted
             site = "alias-different-structure"
             if expr.kind == "constant" and prev.kind == "constant":
@@ -168,6 +171,11 @@ def rand_value(rnd):
     zeros = [0.0, -0.0, 0, False, numpy.float32(0.0), numpy.float32(-0.0), numpy.float64(-0.0), numpy.float64(0.0), numpy.float16(-0.0), numpy.float16(0.0),
              complex(0.0, 0.0), complex(0.0, -0.0), complex(-0.0, 0.0), numpy.complex64(complex(0.0, -0.0)), numpy.complex64(0)]
     ones = [1, 1.0, True, numpy.float32(1), numpy.float64(1), numpy.int32(1), numpy.int64(1), numpy.float16(1), complex(1, 0), numpy.bool_(True)]
+    nans = [float("nan"), -float("nan"), complex(float("nan"), 1.0), complex(float("nan"), 2.0), complex(1.0, float("nan")), complex(2.0, float("nan")), complex(float("nan"), float("nan")),
+            complex(float("nan"), -0.0), complex(float("nan"), 0.0), numpy.complex64(complex(float("nan"), 1.0)), numpy.complex64(complex(float("nan"), 2.0)), numpy.complex128(complex(3.0, float("nan"))),
+            numpy.float32("nan"), numpy.float64("nan"), numpy.float16("nan")]
+    if c > 0.93:
+        return rnd.choice(nans)
     special = [float("nan"), float("inf"), -float("inf"), numpy.float32("nan"), numpy.float64("inf"), "pi", "largest", "smallest", "eps", "posinf", "neginf", "nan", 2, 2.0, 0.5, -1, -1.0, 3, numpy.float32(0.5), numpy.int8(2)]
     if c < 0.3:
         return rnd.choice(zeros)
@@ -254,6 +262,55 @@ def task_histories(params, rec):
             seen.add(e.intkey)
         if h < 2:
             rec.sample(dict(history=h, enable_alt=alt, constructions=params["n"], last_nodes=[describe(e) for e in nodes[-3:]]))
+    contracts.detach_all()
+
+
+def task_long(params, rec):
+    """one context with very many expressions: the two-level integer key is built from construction indices, so whatever it does with them
+    must stay injective when indices grow past 2^16, 2^17, ... The history is dense around a few hot operands (every late node is combined
+    with them on either side), which is where a key that packs / truncates / hashes operand indices would collide first."""
+    import functional_algorithms as fa
+    from functional_algorithms import Expr
+
+    model = Model()
+    install(rec, model)
+    rnd = random.Random(f"c07-long-{params['seed']}-{params['shard']}")
+    ctx = fa.Context(paths=[fa.algorithms])
+    hot = [ctx.symbol(f"h{i}", "float64") for i in range(8)]
+    kinds = ["add", "multiply", "subtract", "atan2"]
+    f = ctx.symbol("f", "float64")
+    total = params["n"]
+    i = 0
+    try:
+        while len(ctx._expressions) < total:
+            f = Expr(ctx, "negative" if i % 2 else "absolute", (f,)) if i % 7 else Expr(ctx, "sqrt", (Expr(ctx, "square", (f,)),))
+            a1 = Expr(ctx, kinds[i % 2], (hot[i % 8], f))
+            a2 = Expr(ctx, kinds[i % 2], (f, hot[(i + 3) % 8]))
+            # the key of a node is built from its operands' (kind, operand indices): put the late nodes one level down as well
+            Expr(ctx, "sqrt", (a1,))
+            Expr(ctx, "exp", (a2,))
+            if i % 3 == 0:
+                Expr(ctx, kinds[2 + i % 2], (a1, a2))
+            if i % 5 == 0:
+                Expr(ctx, "select", (Expr(ctx, "lt", (hot[i % 3], f)), a1, hot[(i // 5) % 8]))
+            if i % 11 == 0:
+                Expr(ctx, kinds[2 + i % 2], (f, f))
+            i += 1
+    except (AssertionError, RuntimeError) as e:
+        rec.violation("long-history:construction-raises", dict(exc=f"{type(e).__name__}: {e}"[:300], expressions=len(ctx._expressions)))
+    n = len(ctx._expressions)
+    rec.count("long-history:contexts")
+    rec.count("long-history:expressions", n)
+    rec.note("long-history:largest-context", n)
+    seen = set()
+    for k_, e in ctx._expressions.items():
+        if e.key != k_:
+            rec.violation("registry-key-mismatch", dict(expr=describe(e)))
+            break
+        if e.intkey in seen:
+            rec.violation("intkey-not-unique", dict(expr=describe(e), intkey=e.intkey))
+            break
+        seen.add(e.intkey)
     contracts.detach_all()
 
 
@@ -365,17 +422,19 @@ def task_shipped(params, rec):
     contracts.detach_all()
 
 
-TASKS = {"histories": task_histories, "e2e": task_e2e, "shipped": task_shipped}
+TASKS = {"histories": task_histories, "e2e": task_e2e, "shipped": task_shipped, "long": task_long}
 
 
 def plan(tier, seed):
     if tier == "quick":
         t = [("histories", dict(seed=seed, shard=s, histories=60, n=300)) for s in range(8)]
         t += [("e2e", dict(seed=seed, shard=s, histories=250)) for s in range(3)]
+        t += [("long", dict(seed=seed, shard=0, n=(1 << 17) + 30000))]
     else:
         t = [("histories", dict(seed=seed, shard=s, histories=400, n=800)) for s in range(10)]
         t += [("histories", dict(seed=seed, shard=100 + s, histories=6, n=30000)) for s in range(2)]
         t += [("e2e", dict(seed=seed, shard=s, histories=5000)) for s in range(4)]
+        t += [("long", dict(seed=seed, shard=0, n=(1 << 17) + 30000)), ("long", dict(seed=seed, shard=1, n=(1 << 20) + 200000))]
     t += [("shipped", dict(shard=s, nshards=5)) for s in range(5)]
     return t
 
